@@ -7,6 +7,7 @@ require (
 	github.com/anyproto/any-sync v0.0.0
 	github.com/cheggaaa/mb/v3 v3.0.3
 	go.uber.org/zap v1.28.0
+	google.golang.org/protobuf v1.36.11
 	storj.io/drpc v1.0.0
 )
 
@@ -70,7 +71,6 @@ require (
 	golang.org/x/sys v0.47.0 // indirect
 	golang.org/x/text v0.40.0 // indirect
 	golang.org/x/tools v0.48.0 // indirect
-	google.golang.org/protobuf v1.36.11 // indirect
 	gopkg.in/yaml.v3 v3.0.1 // indirect
 	lukechampine.com/blake3 v1.4.1 // indirect
 	modernc.org/libc v1.66.8 // indirect
